@@ -257,6 +257,11 @@ class CSemantics:
                 "Cannot use array position designators in non-array", location
             )
 
+        # The position must be inside the array, if its size is known:
+        size = init_cursor.level.size
+        if size is not None and pos >= size:
+            self.error("Array designator exceeds the array bounds", location)
+
         # Update current position:
         init_cursor.level.go_to_pos(pos)
 
